@@ -8,7 +8,9 @@ import Reduino.Lemmas.C06
   * string literals: the literal written for ANY string without a raw newline is read back by a C++ lexer as exactly
     that string, ending at the closing quote (all strings, all continuations);
   * scoping: for every core-fragment script that reads names only after they are bound (`Closed`), the sketch `tr`
-    produces declares every identifier before use, once, and keeps `break` inside a loop;
+    produces declares every identifier before use, once, and keeps `break` inside a loop; the temporaries of tuple
+    assignments (W5) are block-scoped locals: in scope for the rest of their block, declared at most once per block
+    (`declsOk`, `blockDecls … Nodup` — a consequence of the parser's counter threading, `Stmt.numberedFrom`);
   * shape: the rendered sketch has exactly one `setup` and one `loop` opener, in that order, and its braces balance —
     for every sketch (the text is rendered from a tree);
   * headers ⊇ instantiated library classes: C14's theorems (re-exported).
@@ -55,6 +57,23 @@ example : ∃ p c, Closed p = true ∧ tr p = .ok c ∧ c.globals.length = 2 := 
   refine ⟨⟨.seq (.assign "a" (.int 1)) (.seq (.assign "b" (.bin .add (.var "a") (.int 1))) (.forRange "i" (.var "b") (.write (.var "i")))),
     some (.aug "a" .add (.var "b"))⟩, ?_⟩
   exact ⟨_, by decide +kernel, rfl, by decide +kernel⟩
+
+/-- (W5) tuple assignments: the temporaries `__tmp_assign_N` are block-scoped locals — two in `setup()`, three in the `for` body, two
+    in `loop()`, each declared once in its block (the parser's counter), each read only by the assignments that follow it -/
+example : ∃ p c, Closed p = true ∧ tr p = .ok c ∧ wf c = true ∧ blockDecls c.setup = ["__tmp_assign_0", "__tmp_assign_1"] ∧
+    blockDecls c.loop = ["__tmp_assign_5", "__tmp_assign_6"] := by
+  refine ⟨⟨.seq (.assign "a" (.int 0)) (.seq (.assign "b" (.int 1)) (.seq (.assign "f" (.bool false))
+            (.seq (.tuple 0 ["a", "b"] [.var "b", .bin .add (.var "a") (.var "b")])
+             (.forRange "i" (.int 2)
+                (.tuple 2 ["a", "b", "f"] [.var "b", .bin .add (.var "a") (.int 1), .cmp .lt (.var "a") (.var "b")]))))),
+        some (.seq (.tuple 5 ["a", "b"] [.var "b", .bin .add (.var "a") (.var "b")]) (.write (.var "a")))⟩, ?_⟩
+  exact ⟨_, by decide +kernel, rfl, by decide +kernel, by decide +kernel, by decide +kernel⟩
+
+/-- a sketch that declares the same temporary twice in one block, or reads one before its declaration, is not well-formed -/
+example : wf ⟨[("a", .int, .int 0)], .seq (.ctuple 0 [.int] ["a"] [.var "a"]) (.ctuple 0 [.int] ["a"] [.var "a"]), .skip⟩ = false ∧
+    wf ⟨[("a", .int, .int 0)], .ctuple 0 [.int, .int] ["a", "a"] [.var "__tmp_assign_1", .var "a"], .skip⟩ = false ∧
+    wf ⟨[("a", .int, .int 0)], .seq (.ctuple 0 [.int] ["a"] [.var "a"]) (.ctuple 1 [.int] ["a"] [.var "__tmp_assign_0"]), .skip⟩ = true := by
+  decide +kernel
 
 /-- Python keeps the loop variable after the loop; the sketch's `int i` is gone: the script runs in Python (no
     NameError), is accepted, and does not compile -/
